@@ -1,6 +1,7 @@
 (** C14 — Scheduler accounting equals ground truth recomputed from pods.
     Statements only; proofs are in Proofs/Node.v, Proofs/NodeFull.v (node clause) and
-    Proofs/JobBooks.v (workload clause: the last part of this file).
+    Proofs/JobBooks.v (workload clause) and Proofs/QueueBooks.v (queue clause: module [QueueClause], the last part
+    of this file).
 
     [run n0 ops] applies a list of AddTask / RemoveTask / UpdateTask operations
     to a node, skipping the ones the code rejects (the callers log and ignore
@@ -489,3 +490,125 @@ Theorem C14_job_counters_nonvacuous :
   /\ books_okb (jrun (jb_init nv_mins) nv_history) = true.
 Proof. exact job_counters_nonvacuous. Qed.
 Print Assumptions C14_job_counters_nonvacuous.
+
+(** * Queue clause: the proportion plugin's books (Model/QueueBooks.v over Model/Capacity.v)
+
+    [b_open] is updateQueuesCurrentResourceUsage (Model/Capacity.v [load_init] for Allocated /
+    AllocatedNotPreemptible, [load_requests] for Request), [brun] any sequence of allocate / deallocate handler
+    events and silent status changes on the pods of the session; [recomputed np qs ps a r] is the sum, over the
+    pods [ps] whose CURRENT status holds resources and whose queue lies in the subtree of [a], of what they
+    hold; [recomputed_request] the session-open sum (holders with what they hold, Pending pods with what they
+    ask for).  The names of Model/Capacity.v ([task], [res], [run], ...) would clash with the node model above:
+    they are imported inside the module only. *)
+From Coq Require QArith.
+From KaiV Require Model.Capacity Model.CapacitySpec Model.QueueBooks Proofs.QueueBooks.
+Module QueueClause.
+Import QArith.
+Import Model.Status Model.Capacity Model.CapacitySpec Model.QueueBooks Proofs.QueueBooks.
+Local Open Scope Q_scope.
+
+(** Session open: for ALL queue forests and ALL snapshots (pods in any status but Pipelined, which a cluster
+    snapshot never yields) every queue's Allocated and AllocatedNotPreemptible equal the recomputation from the
+    pods, and every queue's Request equals the session-open recomputation. *)
+Theorem C14_queue_books_open_exact :
+  forall (fuel : nat) (qs : list queue) (ps : list spod) (s : bstate),
+    wf_forest qs = true -> fresh qs -> no_pipelined ps = true ->
+    b_open fuel qs ps = Done s ->
+    bexact s /\
+    (forall a r, rget (req_get (b_req s) a) r == recomputed_request qs ps a r) /\
+    wf_forest (b_queues s) = true /\ b_pods s = ps /\ map shape (b_queues s) = map shape qs.
+Proof. exact queue_books_open_exact. Qed.
+Print Assumptions C14_queue_books_open_exact.
+
+(** ... and the pass terminates on every forest. *)
+Theorem C14_queue_books_open_total :
+  forall (qs : list queue) (ps : list spod),
+    wf_forest qs = true -> fresh qs -> exists s, b_open (default_fuel qs) qs ps = Done s.
+Proof. exact queue_books_open_total. Qed.
+Print Assumptions C14_queue_books_open_total.
+
+(** Handlers: from any exact state, after ANY sequence of placements (allocate handler), evictions / undos
+    (deallocate handler) and silent status changes the books are exact for the pods' current statuses; Request
+    is not touched. *)
+Theorem C14_queue_books_events_exact :
+  forall (fuel : nat) (s0 : bstate) (es : list bevent) (s : bstate),
+    wf_forest (b_queues s0) = true -> NoDup (map sp_task (b_pods s0)) -> bexact s0 ->
+    brun fuel s0 es = Done s ->
+    bexact s /\ b_req s = b_req s0 /\ wf_forest (b_queues s) = true /\
+    map sp_task (b_pods s) = map sp_task (b_pods s0).
+Proof. exact queue_books_events_exact. Qed.
+Print Assumptions C14_queue_books_events_exact.
+
+(** A whole cycle: session open, then any events. *)
+Theorem C14_queue_books_cycle_exact :
+  forall (fuel fuel' : nat) (qs : list queue) (ps : list spod) (s0 : bstate) (es : list bevent) (s : bstate),
+    wf_forest qs = true -> fresh qs -> no_pipelined ps = true -> NoDup (map sp_task ps) ->
+    b_open fuel qs ps = Done s0 -> brun fuel' s0 es = Done s ->
+    bexact s /\
+    (forall a r, rget (req_get (b_req s) a) r == recomputed_request qs ps a r) /\
+    wf_forest (b_queues s) = true /\ map sp_task (b_pods s) = map sp_task ps.
+Proof. exact queue_books_cycle_exact. Qed.
+Print Assumptions C14_queue_books_cycle_exact.
+
+(** Requested GPUs in extended numbers ([xq]: finite, +Inf, NaN), the divisor of the gpu-memory term explicit.
+    With a positive divisor (ClusterInfo.MinNodeGPUMemory) the share a Pending pod asks for is the finite
+    quantity of [pending_request], and every queue's requested GPU quantity is finite. *)
+Theorem C14_queue_pending_gpu_finite :
+  forall (d : Z) (t : task), (0 < d)%Z ->
+    pending_gpu_x d t = XFin (r_gpu (pending_request (Z.to_pos d) t)).
+Proof. exact pending_gpu_finite. Qed.
+Print Assumptions C14_queue_pending_gpu_finite.
+
+Theorem C14_queue_requested_finite :
+  forall (qs : list queue) (d : Z) (pend : list (task * positive)) (a : positive), (0 < d)%Z ->
+    exists q, requested_gpu_x qs d pend a = XFin q.
+Proof. exact requested_gpu_finite. Qed.
+Print Assumptions C14_queue_requested_finite.
+
+(** The variant that divides by a field that is still 0 (seeded/C14-5: pp.minNodeGPUMemory is assigned after
+    the books are built): ONE pending gpu-memory pod makes the requested GPUs of its queue and of every ancestor
+    +Inf, on every forest. *)
+Theorem C14_queue_requested_unset_divisor_refuted :
+  forall (qs : list queue) (pend : list (task * positive)) (a : positive) (t : task) (jq : positive),
+    In (t, jq) pend -> in_subtree qs a jq = true -> t_type t = GpuMemory ->
+    (0 < g_memory (t_gpu t))%Z -> (0 < g_count (t_gpu t))%Z ->
+    forallb gpu_memory_sane pend = true ->
+    requested_gpu_x qs 0 pend a = XInf.
+Proof. exact requested_gpu_unset_divisor_infinite. Qed.
+Print Assumptions C14_queue_requested_unset_divisor_refuted.
+
+(** The snapshot of the seeded change's demonstration (dept 1 with team-a 2 and team-b 3; a pending whole-GPU
+    pod in team-a, a pending gpu-memory 4000 MiB pod in team-b, 16000 MiB devices), evaluated. *)
+Theorem C14_queue_readme_world_refuted :
+  wf_forest rw_queues = true /\ forallb gpu_memory_sane rw_pend = true /\
+  r_gpu (job_task_request rw_whole) = 1 /\ r_gpu (job_task_request rw_mem) = 0 /\
+  r_gpu (pending_request 16000 rw_mem) = 1 # 4 /\
+  requested_gpu_x rw_queues 16000 rw_pend 2 = XFin 1 /\
+  requested_gpu_x rw_queues 16000 rw_pend 3 = XFin (1 # 4) /\
+  requested_gpu_x rw_queues 16000 rw_pend 1 = XFin (5 # 4) /\
+  requested_gpu_x rw_queues 0 rw_pend 2 = XFin 1 /\
+  requested_gpu_x rw_queues 0 rw_pend 3 = XInf /\
+  requested_gpu_x rw_queues 0 rw_pend 1 = XInf.
+Proof. exact readme_world_refuted. Qed.
+Print Assumptions C14_queue_readme_world_refuted.
+
+(** Non-vacuity: the GPU books (allocated, non-preemptible, requested) of the three queues at session open and
+    after each of [place 22 (pipeline, 1/4); 23 -> Running (silent); evict 21; undo 22]; and why [no_pipelined]
+    is needed: a snapshot holding a Pipelined pod opens with books that are NOT exact. *)
+Theorem C14_queue_books_nonvacuous :
+  fresh rw_queues /\ no_pipelined rw_pods = true /\ NoDup (map sp_task rw_pods) /\
+  books_after [] = [(1%positive, 3 # 2, 1 # 2, 7 # 4); (2%positive, 1, 0, 1); (3%positive, 1 # 2, 1 # 2, 3 # 4)] /\
+  books_after (firstn 1 rw_events)
+    = [(1%positive, 7 # 4, 1 # 2, 7 # 4); (2%positive, 1, 0, 1); (3%positive, 3 # 4, 1 # 2, 3 # 4)] /\
+  books_after (firstn 2 rw_events) = books_after (firstn 1 rw_events) /\
+  books_after (firstn 3 rw_events)
+    = [(1%positive, 3 # 4, 1 # 2, 7 # 4); (2%positive, 0, 0, 1); (3%positive, 3 # 4, 1 # 2, 3 # 4)] /\
+  books_after rw_events
+    = [(1%positive, 1 # 2, 1 # 2, 7 # 4); (2%positive, 0, 0, 1); (3%positive, 1 # 2, 1 # 2, 3 # 4)] /\
+  (exists s, b_open 4 rw_queues (rw_pod 24 3 true Pipelined 1 1 :: rw_pods) = Done s /\
+             recomputed false (b_queues s) (b_pods s) 3 GPU == 3 # 2 /\
+             (forall q, In q (b_queues s) -> q_id q = 3%positive -> rget (q_alloc q) GPU == 1 # 2) /\
+             ~ bexact s).
+Proof. exact queue_books_nonvacuous. Qed.
+Print Assumptions C14_queue_books_nonvacuous.
+End QueueClause.
